@@ -64,6 +64,9 @@ func RunPlan(e *Entry, p *Plan) *RunOut {
 	}
 	sess := sessions[0]
 	for i, op := range p.Pre {
+		if p.Multi && op.Kind == "OvSvc" {
+			continue // every task overrides the placeholders of its own container, right after constructing it
+		}
 		sess.Exec(-1, i, op)
 	}
 	racePath, before := raceLogSize()
@@ -77,6 +80,11 @@ func RunPlan(e *Entry, p *Plan) *RunOut {
 			if p.Multi {
 				s = sessions[t]
 				s.Construct() // under the scheduler: yields inside the generated constructor interleave
+				for i, op := range p.Pre {
+					if op.Kind == "OvSvc" {
+						s.Exec(-1, i, op)
+					}
+				}
 				sched.Yield("probe.after-construct")
 			}
 			for i, op := range p.Tasks[t] {
